@@ -375,7 +375,7 @@ def run(ctx):
     ctx.sample({"fn": "date", "input": "2009-01-16", "value": call(impl["date"], "2009-01-16")})
 
     gens = {"duration": gen_duration, "size": gen_size, "date": gen_date}
-    n = ctx.n(400, 6000)
+    n = ctx.n(300, 6000)
     for fn in ("duration", "size", "date"):
         for malformed in (False, True):
             for i in range(n):
